@@ -93,11 +93,13 @@ def build(kind="normal", verbose=False):
         fcntl.flock(lock, fcntl.LOCK_UN)
         lock.close()
 
-def prune(kind, keep, n=2):
+def prune(kind, keep, n=3):
     ds = [os.path.join(CACHE, x) for x in os.listdir(CACHE) if x.startswith(kind + "-")]
     ds.sort(key=lambda p: os.path.getmtime(p), reverse=True)
+    now = time.time()
     for p in ds[n:]:
-        if p != keep:
+        # never remove a build that was used in the last half hour: a check running on another tree may still be using it
+        if p != keep and now - os.path.getmtime(p) > 1800:
             shutil.rmtree(p, ignore_errors=True)
 
 if __name__ == "__main__":
